@@ -19,6 +19,14 @@ What is specific here:
     `v[k:]`, `v[:-k]`, `v[::-1]` / `np.flip(v)`, `.reshape((1, -1))` / `np.expand_dims(v, axis=0)`; `X[:, a:b]`; `softmax` (must be
     sklearn.utils.extmath.softmax).
   * `np.einsum("ij,ik->ijk", a, b)` (exactly this subscript string) and `T.reshape((-1, np.prod(T.shape[1:])))` of its 3-D result.
+  * the same product by broadcasting, `a[:, :, np.newaxis] * b[:, np.newaxis, :]` (`Arr3.mul (Arr3.expandLast a) (Arr3.expandMid b)`,
+    NumPy's broadcasting on the three axes), reshaped by `np.prod(T.shape[1:])` or by `a.shape[1] * b.shape[1]` (accepted only when
+    `T` is the value of exactly that product of exactly these `a` and `b`: its trailing axes are then `a.shape[1]`, `b.shape[1]`).
+  * `np.arange(a, b, dtype=np.float64)` for lengths / non-negative literals `a`, `b` (`Arr.arangeFrom`), `np.arange(n)` (the integer
+    array `arangeN n`), `np.empty_like(v)` of a 1-D float / integer array (`Arr.emptyLike` / `emptyLikeN`: the entries are an
+    opaque constant, nothing can be proved about them) and the scatter `g[order] = v` into a 1-D array the name `g` owns, through
+    a 1-D integer array, of a 1-D array of the same kind that does not share memory with `g` (`Arr.setAt g order v`: the
+    assignments are made in order, a repeated index keeps the last value).
   * `_infer`: the pipeline `f = lambda z: self._leaf_binning(X[:, z[0]:z[0] + 1], z[1])`, `it = map(f, self.cut_points_list_)`,
     `res = list(it)` is recognised BY SHAPE (a lambda of one parameter whose body is one call of `self._leaf_binning`, mapped over
     `self.cut_points_list_`, the one-shot iterator consumed exactly once by `list`) and becomes `cut_points_list_.map (fun z => …)`;
@@ -108,6 +116,8 @@ class Unit(G.Unit):
         self.depth = 0
         self.consumed = set()                # one-shot iterators (map objects) already consumed
         self.natdef = {}                     # Lean name of a let-bound length -> the term it was bound to
+        self.expanded = {}                   # Lean term of `x[:, :, np.newaxis]` / `x[:, np.newaxis, :]` -> (DSL operation, term of x)
+        self.tail3 = {}                      # Lean term / let-bound name of a 3-d product -> the terms of its two trailing axes
 
     # ------------------------------------------------------------ helpers
     def builtin(self, f, name):
@@ -229,11 +239,25 @@ class Unit(G.Unit):
             return Val("ulist", "[" + ", ".join(items) + "]", None, True, roots)
         if isinstance(e, ast.ListComp):
             return self.comprehension(e)
-        return super().expr(e)
+        v = super().expr(e)
+        if isinstance(e, ast.BinOp) and isinstance(e.op, ast.Mult) and v.kind == "arr" and v.nd == 3:
+            # `a[:, :, np.newaxis] * b[:, np.newaxis, :]` has the trailing axes `(a.shape[1], b.shape[1])`
+            for ta, (opa, xa) in self.expanded.items():
+                for tb, (opb, xb) in self.expanded.items():
+                    if opa == "Arr3.expandLast" and opb == "Arr3.expandMid" and v.term == f"(Arr3.mul {ta} {tb})":
+                        self.tail3[v.term] = (f"{xa}.c", f"{xb}.c")
+        return v
 
     def subscript(self, e):
-        a = self.expr(e.value)
         sl = e.slice
+        idx = list(sl.elts) if isinstance(sl, ast.Tuple) else [sl]
+        if any(self.newaxis(x) for x in idx):
+            v = super().expr(e)              # ONE np.newaxis among full slices: Arr3.expandMid / expandLast / … (a view)
+            if v.kind == "arr" and v.nd == 3:
+                op, x = v.term[1:-1].split(" ", 1)
+                self.expanded[v.term] = (op, x)
+            return v
+        a = self.expr(e.value)
         if a.kind == "cplitem":
             i = self.literal_int(sl)
             if i == 0:
@@ -305,6 +329,13 @@ class Unit(G.Unit):
             # T.reshape((-1, np.prod(T.shape[1:])))
             if len(args) == 1 and isinstance(args[0], ast.Tuple):
                 args = args[0].elts
+            if len(args) == 2 and self.literal_int(args[0]) == -1 and isinstance(args[1], ast.BinOp) \
+                    and isinstance(args[1].op, ast.Mult) and a.term in self.tail3:
+                # T.reshape((-1, a.shape[1] * b.shape[1])) of T = a[:, :, np.newaxis] * b[:, np.newaxis, :]: the same number
+                dims = [self.nat_term(args[1].left), self.nat_term(args[1].right)]
+                if dims == list(self.tail3[a.term]) or dims == list(self.tail3[a.term])[::-1]:
+                    return Val("arr", f"(Arr3.flattenTail {a.term})", 2, False, a.roots)
+                self.fail("reshape of a 3-d array: the second axis is not the product of its two trailing axes as written", call)
             ok = len(args) == 2 and self.literal_int(args[0]) == -1 and isinstance(args[1], ast.Call) \
                 and self.is_np(args[1].func, {"prod"}) and len(args[1].args) == 1 and not args[1].keywords
             if ok:
@@ -316,7 +347,8 @@ class Unit(G.Unit):
                     b = self.expr(s.value.value)
                     ok = b.kind == "arr" and b.nd == 3 and b.term == a.term
             if not ok:
-                self.fail("reshape of a 3-d array: only T.reshape((-1, np.prod(T.shape[1:])))", call)
+                self.fail("reshape of a 3-d array: only T.reshape((-1, np.prod(T.shape[1:]))) and, of a[:, :, np.newaxis] * "
+                          "b[:, np.newaxis, :], T.reshape((-1, a.shape[1] * b.shape[1]))", call)
             return Val("arr", f"(Arr3.flattenTail {a.term})", 2, False, a.roots)
         if a.kind == "arr" and a.nd == 2 and len(args) == 1:
             try:
@@ -440,6 +472,26 @@ class Unit(G.Unit):
             if num is None:
                 self.fail("np.linspace: the number of points must be a length plus non-negative integer literals", e)
             return Val("arr", f"(Arr.linspace {a} {b} {num})", 1, True, mi=False)
+        if self.is_np(f, {"arange"}):
+            kw = {k.arg: k.value for k in e.keywords}
+            if n == 1 and nokw:
+                k = self.nat_term(e.args[0])
+                if k is None:
+                    self.fail("np.arange(n): n must be a length plus non-negative integer literals", e)
+                return Val("iarr", f"(arangeN {k})", 1, True)
+            if n != 2 or set(kw) != {"dtype"} or len(e.keywords) != 1 or not self.is_np(kw["dtype"], {"float64", "double"}):
+                self.fail("np.arange: only np.arange(n) and np.arange(start, stop, dtype=np.float64)", e)
+            lo, hi = self.nat_term(e.args[0]), self.nat_term(e.args[1])
+            if lo is None or hi is None:
+                self.fail("np.arange: the bounds must be lengths plus non-negative integer literals", e)
+            return Val("arr", f"(Arr.arangeFrom {lo} {hi})", 1, True, mi=False)
+        if self.is_np(f, {"empty_like"}) and n == 1 and nokw:
+            a = self.expr(e.args[0])
+            if a.kind == "arr" and a.nd == 1:
+                return Val("arr", f"(Arr.emptyLike {a.term})", 1, True, mi=bool(a.mi))
+            if a.kind == "iarr" and a.nd == 1:
+                return Val("iarr", f"(emptyLikeN {a.term})", 1, True)
+            self.fail(f"np.empty_like of {self.describe(a)} (only of 1-d arrays)", e)
         if self.is_np(f, {"argsort"}) and n == 1 and nokw:
             a = self.expr(e.args[0])
             if a.kind == "arr" and a.nd == 1:
@@ -545,6 +597,8 @@ class Unit(G.Unit):
             self.env[name] = Val(v.kind, lean, v.nd, v.fresh and not v.roots, v.roots, lit=v.lit)
             return
         super().bind(name, v, node)
+        if v.kind == "arr" and v.nd == 3 and v.term in self.tail3:
+            self.tail3[self.env[name].term] = self.tail3[v.term]
 
     def owned_any(self, name, kinds, node, what):
         cur = self.env.get(name)
@@ -617,6 +671,28 @@ class Unit(G.Unit):
                 if v.kind == "ndarr":
                     # the only reference to the 2-d array is now this view of it: the name owns the N-d array
                     self.bind(name, Val("ndarr", v.term, None, True, lit=v.lit), st)
+                    return
+        if isinstance(st, ast.Assign) and len(st.targets) == 1 and isinstance(st.targets[0], ast.Subscript) \
+                and isinstance(st.targets[0].value, ast.Name) and not isinstance(st.targets[0].slice, (ast.Tuple, ast.Slice)):
+            name = st.targets[0].value.id
+            cur = self.env.get(name)
+            if cur is not None and cur.nd == 1 and cur.kind in ("arr", "iarr"):
+                idx = self.expr(st.targets[0].slice)
+                if idx.kind == "iarr" and idx.nd == 1:
+                    # `g[order] = v`: a scatter into the 1-d array the name `g` owns
+                    if cur.kind == "arr":
+                        cur = self.owned(name, st, "indexed assignment")
+                    else:
+                        cur = self.owned_any(name, ("iarr",), st, "indexed assignment")
+                    v = self.expr(st.value)
+                    if v.kind != cur.kind or v.nd != 1:
+                        self.fail(f"indexed assignment of {self.describe(v)} into a 1-d {self.describe(cur)} "
+                                  "(only a 1-d array of the same kind)", st)
+                    if name in v.roots or name in idx.roots:
+                        self.fail("indexed assignment whose value or index shares memory with the target", st)
+                    if cur.kind == "arr" and v.mi:
+                        self.fail("indexed assignment of an array whose dtype may be an integer one", st)
+                    self.bind(name, Val(cur.kind, f"(Arr.setAt {cur.term} {idx.term} {v.term})", 1, True, mi=False), st)
                     return
         if isinstance(st, ast.AugAssign) and isinstance(st.target, ast.Name):
             cur = self.env.get(st.target.id)
@@ -703,6 +779,8 @@ class Unit(G.Unit):
                 stores.append(node.target.id)
             elif isinstance(node, (ast.Assign, ast.AugAssign)):
                 for tg in (node.targets if isinstance(node, ast.Assign) else [node.target]):
+                    if isinstance(tg, ast.Subscript) and isinstance(tg.value, ast.Name) and isinstance(node, ast.Assign):
+                        tg = tg.value            # `g[order] = v` re-assigns `g`
                     if not isinstance(tg, ast.Name):
                         self.fail("unsupported assignment target inside a loop", node)
                     assigned.append(tg.id)
